@@ -220,6 +220,15 @@ def _mk():
     add("mb_double", "{m}.map_blocks(uf.ub_double, {0}, dtype={0}.dtype)", "uf.ub_double({0})", cond="a0.dtype!=bool", fam="mapblocks")
     add("mb_neg", "{0}.map_blocks(uf.ub_neg)", "uf.ub_neg({0})", cond="a0.dtype!=bool", fam="mapblocks")
 
+    # block-layout dependent: the reference is computed per block of the layout
+    # advertised when the call was made (uf.CH = operand chunks)
+    add("mb_demean", "{m}.map_blocks(uf.demean0, {0}, dtype='f8')", "uf.np_blockmap(uf.demean0, {0}, uf.CH[0])", exact=False, cond="a0.dtype.kind=='f' and a0.ndim>=1", fam="mapblocks")
+    add("mb_demean_chunks", "{m}.map_blocks(uf.demean0, {0}, dtype='f8', chunks={0}.chunks)", "uf.np_blockmap(uf.demean0, {0}, uf.CH[0])", exact=False, cond="a0.dtype.kind=='f' and a0.ndim>=1", fam="mapblocks")
+    add("blocks0", "{0}.blocks[0]", "uf.np_block_at({0}, uf.CH[0], 0)", cond=NE, fam="blocks")
+    add("blocks_m1", "{0}.blocks[-1]", "uf.np_block_at({0}, uf.CH[0], -1)", cond=NE, fam="blocks")
+    add("blocks_rev", "{0}.blocks[::-1]", "uf.np_block_at({0}, uf.CH[0], slice(None, None, -1))", cond=NE, fam="blocks")
+    add("outer_sincos", "{m}.tensordot({m}.sin({m}.cos({0})), {m}.sin({m}.cos({0})), axes=0)", exact=False, cond="a0.ndim==1", fam="linalg")
+
     # ---- linalg-ish / routines (not rewrite-active)
     add("outer", "{m}.outer({0}, {0})", cond="a0.ndim==1", fam="linalg", rewrite=False)
     add("dot_T", "{m}.dot({0}, {0}.T)", exact=False, cond="a0.ndim==2", fam="linalg", rewrite=False)
@@ -253,6 +262,7 @@ def _mk():
     add("b_where", "{m}.where({0} > {1}, {0}, {1})", arity=2, fam="bin")
     add("b_cat", "{m}.concatenate([{0}, {1}])", arity=2, cond="a0.ndim>=1 and a1.ndim>=1", fam="bin")
     add("b_stack", "{m}.stack([{0}, {1}])", arity=2, fam="bin")
+    add("b_cat1", "{m}.concatenate([{0}, {1}], axis=1)", arity=2, cond="a0.ndim>=2 and a1.ndim>=2", fam="bin")
     add("b_matmul", "{m}.matmul({0}, {1})", arity=2, exact=False, cond="a0.ndim>=1 and a1.ndim>=1", fam="bin", rewrite=False)
     return [o for o in ops if o.cond != "False"]
 
